@@ -1,2 +1,2 @@
 #include "c01_exec.h"
-namespace c01 { void run_fastcof(vh::Case& c, const stc::History& h) { exec_history<stc::Opt_fast_cofaces>(c, h, "fastcof"); } }
+namespace c01 { void run_fastcof(vh::Case& c, const stc::History& h, int sample) { exec_history<stc::Opt_fast_cofaces>(c, h, "fastcof", sample); } }
